@@ -49,6 +49,12 @@ type Check struct {
 	Level     string // evidence level
 	Scenarios func(tier string) []*mc.Scenario
 	Enum      func(tier string, deadline time.Time) *EnumResult
+	// EnumPar is an input enumeration split into parts that run in worker
+	// processes (crash isolation). note must be called with the index and a
+	// description of each case before it is executed; cases with index < skip
+	// are not executed (resume after a crash).
+	EnumPar   func(tier string, part, parts, skip int, deadline time.Time, note func(idx int, desc string)) *EnumResult
+	EnumParts map[string]int
 	// Bounds per tier for Mode S, applied to scenarios that do not set their own.
 	Bound       map[string]int
 	Budget      map[string]time.Duration
@@ -65,11 +71,17 @@ type WorkItem struct {
 	Devs     int      `json:"devs"`
 	Bound    int      `json:"bound"`
 	Budget   int      `json:"budget"`
+	Enum     bool     `json:"enum,omitempty"`
+	Part     int      `json:"part,omitempty"`
+	Parts    int      `json:"parts,omitempty"`
+	Skip     int      `json:"skip,omitempty"`
+	Deadline int64    `json:"deadline,omitempty"`
 }
 
 // WorkResult is a worker's answer.
 type WorkResult struct {
-	Stats *mc.Stats `json:"stats"`
+	Stats *mc.Stats   `json:"stats"`
+	Enum  *EnumResult `json:"enum,omitempty"`
 }
 
 // Registry of checks, filled by package checks.
@@ -99,6 +111,18 @@ func Worker() {
 			return
 		}
 		c := Registry[it.Prop]
+		if it.Enum {
+			r := c.EnumPar(it.Tier, it.Part, it.Parts, it.Skip, time.Unix(it.Deadline, 0), func(idx int, desc string) {
+				b := []byte(fmt.Sprintf("%d\n%s\n", idx, desc))
+				cur.Truncate(0)
+				cur.WriteAt(b, 0)
+			})
+			b, _ := json.Marshal(WorkResult{Enum: r})
+			out.Write(b)
+			out.WriteByte('\n')
+			out.Flush()
+			continue
+		}
 		sc := scenarioByName(c, it.Tier, it.Scenario)
 		st := mc.NewStats()
 		e := &mc.Explorer{Sc: sc, Bound: it.Bound, Stats: st, CurFile: cur, Budget: it.Budget, ReplayMod: 64,
@@ -271,34 +295,11 @@ func RunCheck(prop, tier string) int {
 	}
 	if c.Enum != nil {
 		r := c.Enum(tier, deadline)
-		if !r.Exhaustive {
-			exhaustive = false
-		}
-		for _, f := range r.Found {
-			findings = append(findings, Finding{Prop: prop, Kind: f.Kind, Msg: f.Msg, Input: f.Input, Tier: tier})
-		}
-		ev, _ := cov["evaluations"].(int)
-		cov["evaluations"] = ev + r.Evaluations
-		dn, _ := cov["distinct_nontrivial"].(int)
-		cov["distinct_nontrivial"] = dn + r.Distinct
-		if rule, ok := cov["rule"].(string); ok {
-			cov["rule"] = rule + " | E2: " + r.Rule
-		} else {
-			cov["rule"] = r.Rule
-		}
-		var samples []interface{}
-		if s, ok := cov["samples"].([]interface{}); ok {
-			samples = s
-		}
-		cov["samples"] = append(samples, r.Samples...)
-		for k, v := range r.Extra {
-			cov[k] = v
-		}
-		if c.Scenarios == nil && c.Level == "model_checking" {
-			cov["states"] = r.Evaluations
-			cov["transitions"] = r.Evaluations
-			cov["traces_validated_against_impl"] = r.Evaluations
-		}
+		mergeEnum(cov, r, c, prop, tier, &findings, &exhaustive)
+	}
+	if c.EnumPar != nil {
+		r := runEnumPar(c, tier, deadline)
+		mergeEnum(cov, r, c, prop, tier, &findings, &exhaustive)
 	}
 	cov["exhaustive"] = exhaustive
 
@@ -353,6 +354,156 @@ func RunCheck(prop, tier string) int {
 	fmt.Printf("%s %s: evaluations=%v states=%v distinct=%v exhaustive=%v violations=%d known=%d wall=%.1fs\n",
 		prop, tier, cov["evaluations"], cov["states"], cov["distinct_nontrivial"], exhaustive, nviol, len(knownLines), ev.WallS)
 	return exit
+}
+
+func mergeEnum(cov map[string]interface{}, r *EnumResult, c *Check, prop, tier string, findings *[]Finding, exhaustive *bool) {
+	if !r.Exhaustive {
+		*exhaustive = false
+	}
+	for _, f := range r.Found {
+		*findings = append(*findings, Finding{Prop: prop, Kind: f.Kind, Msg: f.Msg, Input: f.Input, Tier: tier})
+	}
+	ev, _ := cov["evaluations"].(int)
+	cov["evaluations"] = ev + r.Evaluations
+	dn, _ := cov["distinct_nontrivial"].(int)
+	cov["distinct_nontrivial"] = dn + r.Distinct
+	if rule, ok := cov["rule"].(string); ok {
+		if !strings.Contains(rule, r.Rule) {
+			cov["rule"] = rule + " | " + r.Rule
+		}
+	} else {
+		cov["rule"] = r.Rule
+	}
+	var samples []interface{}
+	if s, ok := cov["samples"].([]interface{}); ok {
+		samples = s
+	}
+	if len(samples) < 12 {
+		samples = append(samples, r.Samples...)
+	}
+	cov["samples"] = samples
+	for k, v := range r.Extra {
+		cov[k] = v
+	}
+	if c.Level == "model_checking" {
+		st, _ := cov["states"].(int)
+		cov["states"] = st + r.Evaluations
+		tr, _ := cov["transitions"].(int)
+		cov["transitions"] = tr + r.Evaluations
+		tv, _ := cov["traces_validated_against_impl"].(int)
+		cov["traces_validated_against_impl"] = tv + r.Evaluations
+	}
+}
+
+// runEnumPar runs the parts of an input enumeration in worker processes.
+func runEnumPar(c *Check, tier string, deadline time.Time) *EnumResult {
+	parts := c.EnumParts[tier]
+	if parts == 0 {
+		parts = 32
+	}
+	nw := runtime.NumCPU()
+	if nw > 16 {
+		nw = 16
+	}
+	total := &EnumResult{Exhaustive: true, Extra: map[string]interface{}{}}
+	var mu sync.Mutex
+	ch := make(chan int, parts)
+	for i := 0; i < parts; i++ {
+		ch <- i
+	}
+	close(ch)
+	var wg sync.WaitGroup
+	for k := 0; k < nw; k++ {
+		wg.Add(1)
+		go func() {
+			defer wg.Done()
+			var w *worker
+			defer func() {
+				if w != nil {
+					w.stop()
+				}
+			}()
+			for part := range ch {
+				skip := 0
+				for {
+					if w == nil {
+						var err error
+						if w, err = startWorker(); err != nil {
+							panic(err)
+						}
+					}
+					b, _ := json.Marshal(WorkItem{Prop: c.Prop, Tier: tier, Enum: true, Part: part, Parts: parts, Skip: skip, Deadline: deadline.Unix()})
+					w.in.Write(b)
+					w.in.WriteByte('\n')
+					w.in.Flush()
+					line, err := w.out.ReadBytes('\n')
+					if err != nil {
+						// crash: attribute to the noted case and resume after it
+						w.cmd.Wait()
+						cb, _ := os.ReadFile(filepath.Join(Root, ".work", fmt.Sprintf("cur-%d", w.pid)))
+						lines := strings.SplitN(strings.TrimRight(string(cb), "\n"), "\n", 2)
+						idx := -1
+						desc := ""
+						if len(lines) == 2 {
+							fmt.Sscanf(lines[0], "%d", &idx)
+							desc = lines[1]
+						}
+						eb, _ := os.ReadFile(w.errPath)
+						msg := string(eb)
+						if i := strings.Index(msg, "\n\ngoroutine"); i > 0 {
+							msg = msg[:i]
+						}
+						if len(msg) > 400 {
+							msg = msg[:400]
+						}
+						mu.Lock()
+						total.Found = append(total.Found, EnumFound{Kind: "crash:" + crashClass(string(eb)), Msg: "gateway process terminated: " + strings.TrimSpace(msg), Input: desc})
+						mu.Unlock()
+						w.stop()
+						w = nil
+						if idx < 0 {
+							mu.Lock()
+							total.Exhaustive = false
+							mu.Unlock()
+							break
+						}
+						skip = idx + 1
+						continue
+					}
+					var r WorkResult
+					json.Unmarshal(line, &r)
+					mu.Lock()
+					if r.Enum != nil {
+						total.Evaluations += r.Enum.Evaluations
+						total.Distinct += r.Enum.Distinct
+						total.Rule = r.Enum.Rule
+						if len(total.Samples) < 6 {
+							total.Samples = append(total.Samples, r.Enum.Samples...)
+						}
+						if !r.Enum.Exhaustive {
+							total.Exhaustive = false
+						}
+						total.Found = append(total.Found, r.Enum.Found...)
+						for k, v := range r.Enum.Extra {
+							if f, ok := v.(float64); ok {
+								if o, ok := total.Extra[k].(float64); ok {
+									total.Extra[k] = o + f
+								} else {
+									total.Extra[k] = f
+								}
+							} else {
+								total.Extra[k] = v
+							}
+						}
+					}
+					mu.Unlock()
+					break
+				}
+			}
+		}()
+	}
+	wg.Wait()
+	return total
 }
 
 func writeReplay(f *Finding) string {
